@@ -12,7 +12,8 @@ SHARDS = {"quick": 8, "thorough": 16}
 RULE = ("direct Lagrangian parameters (g1,g2 in [0.2,1.2], v in [100,400], tan(beta) in [0.5,200], mu/M1/M2/M3 of either "
         "sign incl. 0 and equal magnitudes, B mu, diagonal soft masses^2 of either sign, Yukawas, trilinears) followed by "
         "calculate_DRbar_masses(); non-trivial = spectrum with a tachyon, an exact degeneracy, a massless state or a "
-        "negative gaugino mass parameter; distinct = distinct parameter sets")
+        "negative gaugino mass parameter; distinct = distinct parameter sets; one case in four on a model object that has "
+        "already computed the spectrum of another parameter set (the caller clears the problem list in between)")
 ASSUMPTIONS = [
     "reference mass matrices written in Python from the MSSM Lagrangian (D-terms from T3 and hypercharge, F-terms, "
     "tree-level EWSB conditions eliminating mHd2, mHu2; Feynman-gauge Goldstone masses MZ, MW), evaluated with mpmath",
